@@ -185,12 +185,16 @@ def cls(code):
     return str(code // 100) if code else "0"
 
 
-def run_session(tree, qq, base_env, idx, cfg, seq, seed):
-    """seq: list of (verb, abstract addr or None). Interactive run; returns record."""
+def run_session(tree, qq, base_env, idx, cfg, seq, seed, dk="normal"):
+    """seq: list of (verb, abstract addr or None). Interactive run; returns record.
+    dk: what happens to the messages of this session after 354 - "normal" (accepted), "over" (larger than DATABYTES: 552), "hops"
+    (100 Received fields: 554), "qtemp" / "qperm" (the queue program fails): however a DATA ends, the transaction is over"""
     import random
     rng = random.Random(seed)
     env = dict(base_env)
-    env.update(qq.env("s%d" % idx))
+    env.update(qq.env("s%d" % idx, exitcode={"qtemp": 53, "qperm": 31}.get(dk, 0)))
+    if dk == "over":
+        env["DATABYTES"] = "20"
     if cfg["relay"] == "empty":
         env["RELAYCLIENT"] = ""
     elif cfg["relay"] == "suffix":
@@ -215,14 +219,19 @@ def run_session(tree, qq, base_env, idx, cfg, seq, seed):
         code = s.reply()
         step = {"verb": verb, "a": a or NOADDR, "reply": cls(code), "mb": mb, "data250": 0}
         if verb == "DATA" and code == 354:
-            s.send(b"Subject: t" + eol + eol + b"body" + eol + b"." + eol)
+            msg = b"Subject: t" + eol + eol + b"body" + eol
+            if dk == "over":
+                msg = b"Subject: t" + eol + eol + b"a body that is longer than twenty bytes" + eol
+            elif dk == "hops":
+                msg = b"".join(b"Received: by hop%d" % i + eol for i in range(100)) + msg
+            s.send(msg + b"." + eol)
             step["data250"] = 1 if s.reply() == 250 else 0
         steps.append(step)
         if code is None:
             break
     s.send(b"QUIT" + eol)
     s.close()
-    return {"idx": idx, "steps": steps, "wire": wire, "eol": len(eol)}
+    return {"idx": idx, "steps": steps, "wire": wire, "eol": len(eol), "dk": dk}
 
 
 def attach_submissions(rec, subs, cfg):
@@ -323,8 +332,16 @@ def main():
         jobs = []
         for seq in seqs:
             idx += 1
-            jobs.append((idx, seq, rng.randrange(1 << 30)))
-        recs = sessions.pmap(lambda j: run_session(tree, qq, base_env, j[0], cfg, j[1], j[2]), jobs, workers=NCPU)
+            jobs.append((idx, seq, rng.randrange(1 << 30), json.load(open(a.replay))["case"].get("dk", "normal") if a.replay else "normal"))
+        if ci == 0 and not a.replay:
+            # messages that are refused after 354 (too large, too many hops, the queue program failing): the DATA has ended the
+            # transaction all the same - every continuation of up to three commands after MAIL RCPT DATA-with-such-a-message
+            s2 = [("DATA", None), ("MAIL", SENDERS[0]), ("RCPT", RCPTS[0]), ("RSET", None), ("NOOP", None)]
+            for dk in ("over", "hops", "qtemp", "qperm"):
+                for tail in itertools.product(s2, repeat=3 if thorough else 2):
+                    idx += 1
+                    jobs.append((idx, [("MAIL", SENDERS[0]), ("RCPT", RCPTS[0]), ("DATA", None)] + list(tail) + [("DATA", None)], rng.randrange(1 << 30), dk))
+        recs = sessions.pmap(lambda j: run_session(tree, qq, base_env, j[0], cfg, j[1], j[2], j[3]), jobs, workers=NCPU)
         subs = qq.collect()
         for r in recs:
             attach_submissions(r, subs.get("s%d" % r["idx"], []), cfg)
@@ -332,7 +349,8 @@ def main():
             allrecs.append(r)
         # the same sessions fully pipelined (everything written at once, bodies where DATA was accepted): replies must be the same
         if not a.replay:
-            sample = recs if len(recs) < 1500 else rng.sample(recs, 1500)
+            plain = [r for r in recs if r.get("dk", "normal") == "normal"]
+            sample = plain if len(plain) < 1500 else rng.sample(plain, 1500)
 
             def piped(r):
                 env = dict(base_env)
@@ -390,7 +408,8 @@ def main():
             best[why] = r
     for why, r in sorted(best.items()):
         ck.violation("%s:cfg=%d:%s" % (why, r["cfg"], "/".join(w[:30] for w in r["wire"])[:120]),
-                     "session %s -> replies %s" % ([w[:60] for w in r["wire"]], [s["reply"] for s in r["steps"]]), {"cfg": r["cfg"], "steps": r["steps"]})
+                     "session %s -> replies %s" % ([w[:60] for w in r["wire"]], [s["reply"] for s in r["steps"]]), {"cfg": r["cfg"], "steps": r["steps"], "dk": r.get("dk", "normal")})
+    ck.cov["sessions_with_a_message_refused_after_354"] = sum(1 for r in allrecs if r.get("dk", "normal") != "normal")
     ck.cov["rule"] = ("every command sequence up to length 3 over 25 commands (8 verbs, MAIL x 5 sender shapes, RCPT x 12 recipient shapes) under the base configuration, "
                       "every sequence of length 2-3 over 11 commands under 7 other configurations, seeded sequences of length 4-9 under all; arguments rendered with random case, "
                       "source routes, bracketless, quoted, escaped, parameters; CRLF or LF line ends; then replayed pipelined; non-trivial = contains RCPT; distinct by (cfg, wire text)")
